@@ -2,6 +2,7 @@ package lime
 
 import (
 	"context"
+	"crypto/tls"
 	"encoding/json"
 	"io"
 	"net"
@@ -160,22 +161,32 @@ func HarnessC12Read() {
 // vhFrameConn: a connection observed at frame level: inbound data is an abstract stream of
 // frames (symbolic sizes, arbitrary fragmentation), outbound frames are taken whole or not at all.
 type vhFrameConn struct {
-	in          int // inbound stream handle
-	frames      [][]byte
-	timeouts    int
-	maxTimeouts int
-	closed      bool
-	cut         bool
-	consumed    int // bytes handed out by Read so far
-	reads       int
-	maxFrag     int
-	partials    int
-	rdl, wdl    []int64
+	in                              int // inbound stream handle
+	frames                          [][]byte
+	timeouts                        int
+	maxTimeouts                     int
+	closed                          bool
+	cut                             bool
+	consumed                        int // bytes handed out by Read so far
+	reads                           int
+	maxFrag                         int
+	partials                        int
+	viaTLS                          bool
+	tlsWrites                       int
+	plainWrites                     int
+	handshakes                      int
+	hsReadDeadline, hsWriteDeadline int64
+	rdl, wdl                        []int64
 }
 
 func (c *vhFrameConn) Write(p []byte) (int, error) {
 	switch nondetChoice("w.outcome", 3) {
 	case 0:
+		if c.viaTLS {
+			c.tlsWrites++
+		} else {
+			c.plainWrites++
+		}
 		c.frames = append(c.frames, p)
 		return len(p), nil
 	case 1:
@@ -329,13 +340,25 @@ func HarnessC12Receive() {
 			garbageAt = i
 			vStreamPutGarbage(in, 3)
 		}
-		e := vhWireEnvelope(nondetChoice("kind", 5), vhIDs[i])
+		kind := vhChoice([]string{"kind0", "kind1", "kind2"}[i], 6)
+		var e envelope
+		if kind == 5 {
+			// a message whose JSON content looks like an envelope itself; the frame's blanks sit in front of it
+			e = &Message{Envelope: Envelope{ID: vhIDs[i]}, Type: MediaTypeApplicationJson(),
+				Content: &JsonDocument{"event": "received", "id": "nested"}}
+		} else {
+			e = vhWireEnvelope(kind, vhIDs[i])
+		}
 		b, err := json.Marshal(e)
 		vAssume(err == nil)
 		size := nondetInt("size")
 		vAssume(size >= 128)
 		vAssume(size <= 4096)
-		vStreamPut(in, b, size)
+		if kind == 5 {
+			vStreamPutSplit(in, b, vJSONText(`{"event":"received","id":"nested"}`), size)
+		} else {
+			vStreamPut(in, b, size)
+		}
 		sent = append(sent, e)
 	}
 	if nondetBool("peer.closes") {
@@ -517,4 +540,79 @@ func HarnessC14TCP() {
 	vAssert(conn.closed, "c14:tcp-socket-closed-after-failed-handshake")
 	vAssert(established == 0 && finished == 0, "c14:tcp-no-callbacks-for-failed-handshake")
 	vAssert(vThreadsLive() <= 0, "c14:tcp-no-goroutine-left")
+}
+
+// ---- C09 (transport level): tcpTransport.SetEncryption ------------------------------------------
+
+// VMarkTLS / VTLSHandshake: hooks the engine's TLS stub calls on the wrapped connection.
+func (c *vhFrameConn) VMarkTLS(on bool) { c.viaTLS = on }
+func (c *vhFrameConn) VTLSHandshake() {
+	c.handshakes++
+	// the deadlines in force while the handshake runs
+	if len(c.rdl) > 0 {
+		c.hsReadDeadline = c.rdl[len(c.rdl)-1]
+	}
+	if len(c.wdl) > 0 {
+		c.hsWriteDeadline = c.wdl[len(c.wdl)-1]
+	}
+}
+
+func HarnessC09TCPEncryption() {
+	in := vStreamNew("in")
+	conn := &vhFrameConn{in: in, maxTimeouts: 1, maxFrag: 1}
+	t := &tcpTransport{TCPConfig: TCPConfig{ReadLimit: 4096}}
+	if nondetBool("tls-config") {
+		t.TLSConfig = &tls.Config{}
+	}
+	t.server = nondetBool("server-side")
+	t.setConn(conn)
+	t.encryption = SessionEncryptionNone
+	start := vNow()
+	var ctx context.Context = context.Background()
+	hasDeadline := nondetBool("ctx.deadline")
+	dl := int64(nondetInt("ctx.deadline-at"))
+	if hasDeadline {
+		vAssume(dl > start)
+		c, cancel := context.WithDeadline(context.Background(), vTimeOf(dl))
+		defer cancel()
+		ctx = c
+	}
+	first := SessionEncryption(nondetOneOf("first", "none|tls"))
+	err1 := t.SetEncryption(ctx, first)
+	vReach("c09:setencryption-returned")
+	if first == SessionEncryptionNone {
+		vAssert(err1 == nil, "c09:same-value-is-a-no-op")
+		vAssert(conn.handshakes == 0, "c09:no-handshake-for-a-no-op")
+		vAssert(t.Encryption() == SessionEncryptionNone, "c09:no-op-keeps-encryption")
+		return
+	}
+	if t.TLSConfig == nil {
+		vAssert(err1 != nil, "c09:tls-without-config-is-refused")
+		vAssert(t.Encryption() == SessionEncryptionNone, "c09:refused-upgrade-keeps-cleartext")
+		return
+	}
+	if err1 != nil {
+		vReach("c09:handshake-failed")
+		vAssert(t.Encryption() == SessionEncryptionNone, "c09:failed-handshake-keeps-cleartext")
+		return
+	}
+	vReach("c09:upgraded")
+	vAssert(conn.handshakes == 1, "c09:exactly-one-handshake")
+	vAssert(t.Encryption() == SessionEncryptionTLS, "c09:encryption-reported-after-upgrade")
+	// the handshake ran under a deadline taken from the context (or 30 s)
+	if hasDeadline {
+		vAssert(conn.hsReadDeadline == dl && conn.hsWriteDeadline == dl, "c09:handshake-deadline-is-the-contexts")
+	} else {
+		vAssert(conn.hsReadDeadline <= vNow()+int64(30*time.Second), "c09:handshake-deadline-within-thirty-seconds")
+	}
+	// everything that follows travels through TLS
+	conn.plainWrites = 0
+	serr := t.Send(context.Background(), vhWireEnvelope(4, "s"))
+	if serr == nil {
+		vAssert(conn.tlsWrites >= 1 && conn.plainWrites == 0, "c09:writes-after-upgrade-go-through-tls")
+	}
+	// a downgrade is refused, the same value again is a no-op
+	vAssert(t.SetEncryption(ctx, SessionEncryptionNone) != nil, "c09:downgrade-is-refused")
+	vAssert(t.SetEncryption(ctx, SessionEncryptionTLS) == nil, "c09:same-value-after-upgrade-is-a-no-op")
+	vAssert(conn.handshakes == 1, "c09:no-second-handshake")
 }
